@@ -5,7 +5,7 @@ import json, os, re, subprocess, sys
 V = os.path.dirname(os.path.dirname(os.path.abspath(__file__)))
 rows = []
 from concurrent.futures import ThreadPoolExecutor
-dirs = [d for d in sorted(os.listdir(os.path.join(V, "seeded"))) if os.path.isdir(os.path.join(V, "seeded", d))]
+dirs = [d for d in sorted(os.listdir(os.path.join(V, "seeded"))) if os.path.isfile(os.path.join(V, "seeded", d, "patch.diff"))]  # parked changes (patch.original-tree.diff + NOTE) no longer apply to the repaired tree
 def verify(d):
     return subprocess.run([os.path.join(V, "tools", "verify_seed.sh"), os.path.join(V, "seeded", d), d.split("-")[0]], capture_output=True, text=True).stdout.strip()
 with ThreadPoolExecutor(max_workers=int(os.environ.get("SEED_JOBS", "5"))) as ex:
